@@ -24,6 +24,11 @@ func main() {
 	if err != nil {
 		vlib.Infra("build probes: %v", err)
 	}
+	byWL := map[int]string{}
+	for _, v := range vs {
+		byWL[v.WorkerLimit] = v.ID()
+	}
+	concPart(c, bins, byWL, thorough)
 	r := rand.New(rand.NewSource(vlib.Seed() + 500))
 	schema, _, err := vlib.FetchSchema(bins[vs[0].ID()])
 	if err != nil {
